@@ -75,7 +75,13 @@ pub fn parse_conditional(
     })?;
 
     // Detect switch-style: `{ expr: \n - Case1: ... }` — look ahead at next body line
-    let first_body_line_index = *line_index + 1;
+    // (blank lines and removed comments may stand between the header and the first case)
+    let mut first_body_line_index = *line_index + 1;
+    while first_body_line_index < lines.len()
+        && lines[first_body_line_index].content.trim().is_empty()
+    {
+        first_body_line_index += 1;
+    }
     let is_switch = rest_after_colon.trim().is_empty() && first_body_line_index < lines.len() && {
         let first_body = lines[first_body_line_index].content.trim();
         if first_body.starts_with('-')
@@ -504,6 +510,8 @@ fn parse_switch_conditional(
             let header = header.trim_start();
             if let Some(rest) = header.strip_prefix("else:") {
                 current_case = None; // else branch
+                // every branch of a multi-line block starts on a line of its own
+                current_nodes.push(Node::Newline);
                 let rest = rest.trim();
                 if !rest.is_empty() {
                     let inline_line = Line {
@@ -527,6 +535,7 @@ fn parse_switch_conditional(
                 None => {
                     // Bare default branch `- content` with no colon
                     current_case = None;
+                    current_nodes.push(Node::Newline);
                     if !header.trim().is_empty() {
                         let inline_line = Line {
                             content: header.trim(),
@@ -545,6 +554,7 @@ fn parse_switch_conditional(
                 }
             };
             current_case = Some(parse_expression(case_text.trim())?);
+            current_nodes.push(Node::Newline);
             let rest = rest.trim();
             if !rest.is_empty() {
                 let inline_line = Line {
